@@ -1,5 +1,6 @@
 import DendroModel.Model.C19Ext
 import DendroModel.Model.C19Heap
+import DendroModel.Model.C19Seq
 import DendroModel.Gen.C19Kernels
 /-! C19 — property theorems about the model the driver `drv_c19` executes (`DendroModel/Model/C19.lean`).
 Only property theorems live directly in `namespace DendroModel.C19` of this file; helper lemmas are in
@@ -4818,6 +4819,386 @@ theorem initWorld_sep (ms : List Matrix) (h : ∀ m ∈ ms, (keys m.rows).Nodup)
   exact key ms ([], []) h0 h
 
 end DendroModel.C19
+
+/-! ## wave 2: shared objects, size observables after histories, the initial pool, the row object (`Model/C19Seq.lean`) -/
+
+namespace DendroModel.C19.Aux
+open DendroModel.C19
+
+theorem hget_set (h : List Row) (a b : Nat) (r : Row) (ha : a < h.length) :
+    hget (h.set a r) b = if b = a then r else hget h b := by
+  by_cases hb : b = a
+  · subst hb; simp [hget_set_self h b r ha]
+  · simp [hb, hget_set_ne h a b r (fun e => hb e.symm)]
+
+end DendroModel.C19.Aux
+
+namespace DendroModel.C19
+
+/-- **Shared objects: an in-place change shows under every name of the object and nowhere else.**  No separation hypothesis:
+    whatever the sharing partition of the pool, after the sequence object stored under `k` in matrix `i` (address `a`) has been
+    changed in place (`seq.extend`, `v.append`, `del vec[i]` — `writeSlot`), the row seen through ANY dict entry `(m, t)` of ANY
+    matrix is the new content if that entry holds the same object, and exactly what it was otherwise; no dict changes. -/
+theorem writeSlot_sharing (w : World) (i : Nat) (k : Taxon) (r : Row) (a : Nat) (hk : aget? k (refsOf w i) = some a)
+    (ha : a < w.heap.length) (m : Nat) (t : Taxon) :
+    refsOf (writeSlot w i k r) m = refsOf w m ∧
+    hRow (writeSlot w i k r) m t = (if aget? t (refsOf w m) = some a then r else hRow w m t) := by
+  have hw : writeSlot w i k r = { w with heap := w.heap.set a r } := by simp [writeSlot, hk]
+  rw [hw]
+  refine ⟨rfl, ?_⟩
+  have hr : refsOf ({ w with heap := w.heap.set a r } : World) m = refsOf w m := rfl
+  simp only [hRow, hr]
+  cases hg : aget? t (refsOf w m) with
+  | none => simp
+  | some b =>
+    simp only [Option.map_some, Option.getD_some, Option.some.injEq, Aux.hget_set _ a b r ha]
+
+/-- the padding loop and the in-place extension on a pool WITH sharing: one round of `extend_matrix` / `extend_sequences` on a
+    taxon that has a row lengthens the object once — under every name it has — and touches no other object -/
+theorem hBinStep_extend_sharing (i j : Nat) (w : World) (k : Taxon) (a : Nat) (hk : aget? k (refsOf w i) = some a)
+    (ha : a < w.heap.length) (m : Nat) (t : Taxon) :
+    hRow (hBinStep .extendMatrix i j w k) m t =
+      (if aget? t (refsOf w m) = some a then hRow w i k ++ hRow w j k else hRow w m t) := by
+  have hp : hHas w i k = true := by simp [hHas, hk]
+  simp only [hBinStep, hp, if_true]
+  exact (writeSlot_sharing w i k _ a hk ha m t).2
+
+/-- **size observables after any history.**  Whatever sequence of operations (row algebra, fill, pack, element access, …)
+    has been applied, `max_sequence_size` of the resulting matrix is the from-scratch maximum over ALL its rows (it bounds every
+    row and is attained unless it is 0), and a `fill()` without a size then makes all rows exactly that long -/
+theorem history_maxSeqSize (ops : List Op) (m : Matrix) (hm : WFN m) (hops : ∀ op ∈ ops, OpOK m.taxa op) :
+    (∀ t r, get? t (run m ops).rows = some r → r.length ≤ maxSeqSize (run m ops)) ∧
+    (maxSeqSize (run m ops) = 0 ∨ ∃ t r, get? t (run m ops).rows = some r ∧ r.length = maxSeqSize (run m ops)) ∧
+    (∀ v app t r, get? t (step (run m ops) (.fill v none app)).rows = some r → r.length = maxSeqSize (run m ops)) := by
+  have hw := (history_wfn ops m hm hops).1
+  have hspec := maxSeqSize_spec (run m ops)
+  refine ⟨?_, ?_, ?_⟩
+  · intro t r hg
+    exact hspec.1 t (hw.1.2.1 t (Aux.mem_keys_of_get? t _ r hg)) r hg
+  · rcases hspec.2 with h | ⟨t, _, r, hg, hl⟩
+    · exact Or.inl h
+    · exact Or.inr ⟨t, r, hg, hl⟩
+  · intro v app t r hg
+    simp only [step] at hg
+    exact fill_all_equal v none app _ hw.2 _ hw.1.2.1 (Nat.le_refl _) t r hg
+
+end DendroModel.C19
+
+namespace DendroModel.C19.Aux
+open DendroModel.C19
+
+/-- non-vacuity: a pool in which two entries hold one object; extending through one name shows under the other -/
+def wShared : World :=
+  { heap := [[1, 2], [3]], mats := [{ ns := 0, taxa := [0, 1, 2], label := none, refs := [(0, 0), (1, 1), (2, 0)], subs := [] }] }
+
+example : hRow (writeSlot wShared 0 0 [9]) 0 2 = [9] ∧ hRow (writeSlot wShared 0 0 [9]) 0 1 = [3] := by
+  have h := fun t => writeSlot_sharing wShared 0 0 [9] 0 rfl (by decide) 0 t
+  exact ⟨(h 2).2, (h 1).2⟩
+
+example : maxSeqSize (run mA [.extendMatrix mB, .delItem 1, .setItem 1 [4]]) = 3 := by decide
+
+end DendroModel.C19.Aux
+
+
+namespace DendroModel.C19
+
+/-- **the pool a driver history starts from denotes the matrices it was given**: `views (initWorld ms) = ms` -/
+theorem initWorld_views (ms : List Matrix) : views (initWorld ms) = ms := by
+  have key : ∀ (ms : List Matrix) (st : List Row × List HMat),
+      (∀ m' ∈ st.2, ∀ a ∈ Aux.addrs m'.refs, a < st.1.length) →
+      views ⟨(ms.foldl initMat st).1, (ms.foldl initMat st).2⟩ = views ⟨st.1, st.2⟩ ++ ms := by
+    intro ms
+    induction ms with
+    | nil => intro st _; simp
+    | cons m rest ih =>
+      intro st hb
+      simp only [List.foldl_cons]
+      have hb' : ∀ m' ∈ (initMat st m).2, ∀ a ∈ Aux.addrs m'.refs, a < (initMat st m).1.length := by
+        intro m' hm' a ha
+        simp only [initMat, List.mem_append, List.mem_singleton, List.length_append, List.length_map] at hm' ⊢
+        rcases hm' with hm' | hm'
+        · have := hb m' hm' a ha; omega
+        · subst hm'
+          simp only [Aux.addrs, List.mem_map] at ha
+          obtain ⟨p, hp, hpa⟩ := ha
+          have := Aux.mem_enumRefs _ _ p.1 p.2 hp
+          omega
+      rw [ih (initMat st m) hb']
+      have hstep : views ⟨(initMat st m).1, (initMat st m).2⟩ = views ⟨st.1, st.2⟩ ++ [m] := by
+        simp only [views, initMat, List.map_append, List.map_cons, List.map_nil]
+        congr 1
+        · apply List.map_congr_left
+          intro m' hm'
+          simp only [viewM]
+          rw [Aux.deref_append _ _ _ (hb m' hm')]
+        · have := Aux.deref_enumRefs m.rows st.1 []
+          simp only [List.append_nil] at this
+          simp only [viewM, this]
+      rw [hstep, List.append_assoc]
+      rfl
+  have := key ms ([], []) (by intro m' hm'; simp at hm')
+  simpa [initWorld, views] using this
+
+end DendroModel.C19
+
+namespace DendroModel.C19.Aux
+open DendroModel.C19
+example : views (initWorld [mA, mB]) = [mA, mB] := initWorld_views _
+end DendroModel.C19.Aux
+
+
+namespace DendroModel.C19
+
+/-- values, character types and annotations of a row object are in step -/
+def Aligned (s : Seq3) : Prop := s.types.length = s.vals.length ∧ s.annots.length = s.vals.length
+
+/-- the two calls that cannot keep the three lists in step (on a sequence of `n` values): `extend` with a list of types or
+    annotations of another length than the values, and a slice assignment of another number of values than the slice holds -/
+def SeqOp.breaks (n : Nat) : SeqOp → Prop
+  | .extend vs ts as => (∃ tl, ts = some tl ∧ tl.length ≠ vs.length) ∨ (∃ al, as = some al ∧ al.length ≠ vs.length)
+  | .setSlice lo hi vs => vs.length ≠ (pySlice n lo hi).2 - (pySlice n lo hi).1
+  | _ => False
+
+/-- calls that keep the lists in step whatever the length -/
+def SeqOp.safe : SeqOp → Prop
+  | .extend vs ts as => (∀ tl, ts = some tl → tl.length = vs.length) ∧ (∀ al, as = some al → al.length = vs.length)
+  | .setSlice _ _ _ => False
+  | _ => True
+
+end DendroModel.C19
+
+namespace DendroModel.C19.Aux
+open DendroModel.C19
+
+theorem pyIdx_lt (n : Nat) (i : Int) (k : Nat) (h : pyIdx n i = some k) : k < n := by
+  simp only [pyIdx] at h
+  split at h
+  · split at h
+    · cases h; assumption
+    · cases h
+  · split at h
+    · cases h; omega
+    · cases h
+
+theorem pyClamp_le (n : Nat) (i : Int) : pyClamp n i ≤ n := by
+  simp only [pyClamp]; split <;> omega
+
+theorem pySlice_le (n : Nat) (lo hi : Option Int) : (pySlice n lo hi).1 ≤ (pySlice n lo hi).2 ∧ (pySlice n lo hi).2 ≤ n := by
+  have h1 : ∀ i, pyClamp n i ≤ n := pyClamp_le n
+  cases lo with
+  | none => cases hi with
+    | none => simp only [pySlice]; omega
+    | some j => have := h1 j; simp only [pySlice]; omega
+  | some i => cases hi with
+    | none => have := h1 i; simp only [pySlice]; omega
+    | some j => have := h1 i; have := h1 j; simp only [pySlice]; omega
+
+theorem length_eraseIdx_lt (l : List Nat) (k : Nat) (h : k < l.length) : (l.eraseIdx k).length = l.length - 1 := by
+  simp [List.length_eraseIdx, h]
+
+end DendroModel.C19.Aux
+
+namespace DendroModel.C19
+
+/-- Python's index rule, spelled out: `l[i]` addresses position `i` for `0 ≤ i < n`, position `n + i` for `-n ≤ i < 0`,
+    and is an IndexError otherwise -/
+theorem pyIdx_spec (n : Nat) (i : Int) (k : Nat) :
+    pyIdx n i = some k ↔ ((0 ≤ i ∧ i = k ∧ k < n) ∨ (i < 0 ∧ (k : Int) = n + i ∧ 0 ≤ (n : Int) + i)) := by
+  simp only [pyIdx]
+  constructor
+  · intro h
+    split at h
+    · split at h
+      · cases h; left; omega
+      · cases h
+    · split at h
+      · cases h; right; omega
+      · cases h
+  · rintro (⟨h0, h1, h2⟩ | ⟨h0, h1, h2⟩)
+    · have : i.toNat = k := by omega
+      simp [h0, this, h2]
+    · have hn : ¬ (0 ≤ i) := by omega
+      have h3 : (-i).toNat ≤ n := by omega
+      simp only [hn, if_false, h3, if_true, Option.some.injEq]
+      omega
+
+/-- (d, on the row object) what each call does to the VALUES — exactly the list operation it names — whatever happens to
+    the other two lists and whether or not it raises afterwards -/
+theorem seqStep_vals (s : Seq3) :
+    (∀ v t a, (seqStep s (.append v t a)).1.vals = s.vals ++ [v]) ∧
+    (∀ vs ts as, (seqStep s (.extend vs ts as)).1.vals = s.vals ++ vs) ∧
+    (∀ i k, pyIdx s.vals.length i = some k → (seqStep s (.delItem i)).1.vals = s.vals.eraseIdx k) ∧
+    (∀ i, pyIdx s.vals.length i = none → seqStep s (.delItem i) = (s, some .indexError)) ∧
+    (∀ lo hi, (seqStep s (.delSlice lo hi)).1.vals = delRange s.vals (pySlice s.vals.length lo hi).1 (pySlice s.vals.length lo hi).2) ∧
+    (∀ i v k, pyIdx s.vals.length i = some k → seqStep s (.setItem i v) = ({ s with vals := s.vals.set k v }, none)) ∧
+    (∀ i v, pyIdx s.vals.length i = none → seqStep s (.setItem i v) = (s, some .indexError)) ∧
+    (∀ lo hi vs, seqStep s (.setSlice lo hi vs) =
+      ({ s with vals := setRange s.vals (pySlice s.vals.length lo hi).1 (pySlice s.vals.length lo hi).2 vs }, none)) ∧
+    (∀ i v t a, (seqStep s (.insert i v t a)).1.vals = insertAt s.vals (pyClamp s.vals.length i) v ∧ (seqStep s (.insert i v t a)).2 = none) := by
+  refine ⟨fun _ _ _ => rfl, ?_, ?_, ?_, fun _ _ => rfl, ?_, ?_, fun _ _ _ => rfl, fun _ _ _ _ => ⟨rfl, rfl⟩⟩
+  · intro vs ts as
+    cases ts <;> cases as <;> simp only [seqStep] <;> (repeat' split) <;> rfl
+  · intro i k h
+    simp only [seqStep, h]
+    (repeat' split) <;> rfl
+  · intro i h; simp only [seqStep, h]
+  · intro i v k h; simp only [seqStep, h]
+  · intro i v h; simp only [seqStep, h]
+
+/-- **alignment is kept, or the call is one of the two that break it.**  On a row object whose three lists are in step,
+    every call that is not `extend` with a wrong-length list / an unequal slice assignment leaves them in step — also when it
+    raises `IndexError` — -/
+theorem seqStep_aligned (s : Seq3) (op : SeqOp) (h : Aligned s) (hb : ¬ op.breaks s.vals.length) : Aligned (seqStep s op).1 := by
+  obtain ⟨ht, ha⟩ := h
+  cases op with
+  | append v t a => simp [seqStep, Aligned, ht, ha]
+  | extend vs ts as =>
+    simp only [SeqOp.breaks, not_or, not_exists, not_and, Decidable.not_not] at hb
+    cases ts with
+    | none =>
+      cases as with
+      | none => simp [seqStep, Aligned, ht, ha]
+      | some al => have := hb.2 al rfl; simp [seqStep, Aligned, ht, ha, this]
+    | some tl =>
+      have h1 := hb.1 tl rfl
+      cases as with
+      | none => simp [seqStep, Aligned, ht, ha, h1]
+      | some al => have := hb.2 al rfl; simp [seqStep, Aligned, ht, ha, h1, this]
+  | delItem i =>
+    simp only [seqStep, ht, ha]
+    cases hk : pyIdx s.vals.length i with
+    | none => exact ⟨ht, ha⟩
+    | some k =>
+      have hlt := Aux.pyIdx_lt _ _ _ hk
+      have e1 := Aux.length_eraseIdx_lt s.vals k hlt
+      have e2 := Aux.length_eraseIdx_lt s.types k (by omega)
+      have e3 := Aux.length_eraseIdx_lt s.annots k (by omega)
+      simp only [Aligned]
+      omega
+  | delSlice lo hi =>
+    simp [seqStep, ht, ha, Aligned, delRange]
+  | setItem i v =>
+    simp only [seqStep]
+    cases pyIdx s.vals.length i with
+    | none => exact ⟨ht, ha⟩
+    | some k => simp [Aligned, ht, ha]
+  | setSlice lo hi vs =>
+    simp only [SeqOp.breaks, Decidable.not_not] at hb
+    have hle := Aux.pySlice_le s.vals.length lo hi
+    simp only [seqStep, Aligned, setRange, List.length_append, List.length_take, List.length_drop, ht, ha]
+    omega
+  | insert i v t a =>
+    simp [seqStep, ht, ha, Aligned, insertAt]
+  | setAt i v t a =>
+    simp only [seqStep, padNone, List.length_append, List.length_replicate, ht, ha, List.length_set]
+    cases pyIdx (s.vals.length + (i + 1 - (s.vals.length : Int)).toNat) i with
+    | none => simp [Aligned, ht, ha]
+    | some k => simp [Aligned, ht, ha]
+
+/-- … and conversely the two kinds of call do break it: `extend` (of at least one value) raises `AssertionError` AFTER having
+    extended the values, a slice assignment changes the values only -/
+theorem seqStep_breaks (s : Seq3) (op : SeqOp) (h : Aligned s) (hb : op.breaks s.vals.length)
+    (hne : ∀ vs ts as, op = .extend vs ts as → vs ≠ []) : ¬ Aligned (seqStep s op).1 := by
+  obtain ⟨ht, ha⟩ := h
+  cases op with
+  | extend vs ts as =>
+    have hpos : 0 < vs.length := by
+      cases vs with
+      | nil => exact absurd rfl (hne [] ts as rfl)
+      | cons _ _ => simp
+    simp only [SeqOp.breaks] at hb
+    intro hal
+    cases ts with
+    | none =>
+      rcases hb with ⟨tl, h1, _⟩ | ⟨al, h1, h2⟩
+      · cases h1
+      · cases h1
+        simp only [seqStep, h2, ne_eq, not_false_eq_true, if_true, Aligned, List.length_append, List.length_replicate] at hal
+        omega
+    | some tl =>
+      by_cases h1 : tl.length = vs.length
+      · rcases hb with ⟨tl', h3, h4⟩ | ⟨al, h3, h4⟩
+        · cases h3; exact h4 h1
+        · cases h3
+          simp only [seqStep, h1, ne_eq, not_true, if_false, h4, not_false_eq_true, if_true, Aligned, List.length_append] at hal
+          omega
+      · simp only [seqStep, h1, ne_eq, not_false_eq_true, if_true, Aligned, List.length_append] at hal
+        omega
+  | setSlice lo hi vs =>
+    simp only [SeqOp.breaks] at hb
+    have hle := Aux.pySlice_le s.vals.length lo hi
+    intro hal
+    simp only [seqStep, Aligned, setRange, List.length_append, List.length_take, List.length_drop] at hal
+    omega
+  | append _ _ _ => exact absurd hb (by simp [SeqOp.breaks])
+  | delItem _ => exact absurd hb (by simp [SeqOp.breaks])
+  | delSlice _ _ => exact absurd hb (by simp [SeqOp.breaks])
+  | setItem _ _ => exact absurd hb (by simp [SeqOp.breaks])
+  | insert _ _ _ _ => exact absurd hb (by simp [SeqOp.breaks])
+  | setAt _ _ _ _ => exact absurd hb (by simp [SeqOp.breaks])
+
+/-- the exact refusals on an aligned row object: `AssertionError` iff `extend` got a list of another length; an `IndexError`
+    leaves the object exactly as it was -/
+theorem seqStep_refusal (s : Seq3) (op : SeqOp) (h : Aligned s) :
+    ((seqStep s op).2 = some .assertionError ↔ ∃ vs ts as, op = .extend vs ts as ∧ op.breaks s.vals.length) ∧
+    ((seqStep s op).2 = some .indexError → (seqStep s op).1 = s) := by
+  obtain ⟨ht, ha⟩ := h
+  cases op with
+  | append v t a => simp [seqStep]
+  | extend vs ts as =>
+    constructor
+    · simp only [SeqOp.breaks]
+      cases ts <;> cases as <;> simp only [seqStep] <;> (repeat' split) <;> simp_all
+    · cases ts <;> cases as <;> simp only [seqStep] <;> (repeat' split) <;> simp
+  | delItem i =>
+    simp only [seqStep, ht, ha]
+    cases pyIdx s.vals.length i <;> simp
+  | delSlice lo hi => simp [seqStep]
+  | setItem i v =>
+    simp only [seqStep]
+    cases pyIdx s.vals.length i <;> simp
+  | setSlice lo hi vs => simp [seqStep]
+  | insert i v t a => simp [seqStep]
+  | setAt i v t a =>
+    simp only [seqStep, padNone, List.length_append, List.length_replicate, ht, ha, List.length_set]
+    cases hk : pyIdx (s.vals.length + (i + 1 - (s.vals.length : Int)).toNat) i with
+    | some k => simp
+    | none =>
+      have hneg : (i + 1 - (s.vals.length : Int)).toNat = 0 := by
+        simp only [pyIdx] at hk
+        split at hk
+        · split at hk
+          · cases hk
+          · omega
+        · omega
+      simp [hneg]
+
+/-- **histories of edits on a row object**: any sequence of calls that are not of the two breaking kinds keeps values, types
+    and annotations in step -/
+theorem seqRun_aligned (ops : List SeqOp) (s : Seq3) (h : Aligned s) (hops : ∀ op ∈ ops, op.safe) : Aligned (seqRun s ops) := by
+  induction ops generalizing s with
+  | nil => exact h
+  | cons op rest ih =>
+    simp only [seqRun, List.foldl_cons]
+    apply ih _ _ (fun o ho => hops o (by simp [ho]))
+    apply seqStep_aligned s op h
+    have hs := hops op (by simp)
+    cases op <;> simp only [SeqOp.breaks, SeqOp.safe, not_false_eq_true] at hs ⊢
+    · rintro (⟨tl, h1, h2⟩ | ⟨al, h1, h2⟩)
+      · exact h2 (hs.1 tl h1)
+      · exact h2 (hs.2 al h1)
+
+end DendroModel.C19
+
+namespace DendroModel.C19.Aux
+open DendroModel.C19
+def sEx : Seq3 := { vals := [1, 2, 3], types := [0, 1, 0], annots := [0, 0, 2] }
+example : Aligned sEx := ⟨rfl, rfl⟩
+example : seqStep sEx (.delItem (-1)) = ({ vals := [1, 2], types := [0, 1], annots := [0, 0] }, none) := by decide
+example : (seqStep sEx (.extend [7] (some []) none)).2 = some .assertionError ∧ (seqStep sEx (.extend [7] (some []) none)).1.vals = [1, 2, 3, 7] := by decide
+example : Aligned (seqRun sEx [.insert (-9) 5 1 1, .delSlice (some 1) none, .setAt 4 8 0 0, .extend [1, 1] none (some [2, 2])]) :=
+  seqRun_aligned _ _ ⟨rfl, rfl⟩ (by intro op hop; simp at hop; rcases hop with h | h | h | h <;> subst h <;> simp [SeqOp.safe])
+end DendroModel.C19.Aux
 
 /-! # Tie A: the kernels regenerated from the source (`Gen/C19Kernels.lean`, `harness/gen/c19kernels.py`) -/
 
